@@ -936,6 +936,9 @@ func unop(fr *frame, instr *ssa.UnOp, x value) value {
 			return -x
 		}
 	case token.MUL:
+		if ep, ok := x.(symElemPtr); ok {
+			return fr.i.run.indexReadChecked(ep.elems, ep.idx)
+		}
 		p := x.(*value)
 		if p == nil {
 			panic(rtError("invalid memory address or nil pointer dereference"))
@@ -1293,13 +1296,18 @@ func convFr(fr *frame, t_dst, t_src types.Type, x value) value {
 		case types.Rune:
 			x := x.([]value)
 			r := make([]rune, 0, len(x))
+			var out []value
 			for i := range x {
 				if sx, ok := x[i].(sym); ok {
-					x[i] = fr.i.run.concretize(sx, "rune->string")
+					out = append(out, fr.i.run.runeBytes(sx)...)
+					continue
 				}
-				r = append(r, x[i].(rune))
+				for _, b := range []byte(string(x[i].(rune))) {
+					out = append(out, b)
+				}
 			}
-			return string(r)
+			_ = r
+			return mkString(out)
 		}
 
 	case *types.Basic:
